@@ -71,6 +71,8 @@ type Case struct {
 	Evs  []Ev       `json:"evs"`
 	// Quiet: URR ids whose removal the kernel acknowledges without a final report
 	Quiet []uint32 `json:"quiet,omitempty"`
+	// Perm != 0: the child IEs of every Create / Update IE are sent in another order derived from it
+	Perm uint32 `json:"perm,omitempty"`
 }
 
 var periodsSec = []uint32{3600, 7200}
@@ -255,7 +257,7 @@ func run(c Case) (v *vcore.Violation, stt stats) {
 			m.pdrHas[u.ID] = true
 		}
 		rules = append(rules, stack.RuleOp{Verb: "create", Kind: "PDR", ID: 1, Prec: 1, URRs: refs})
-		o := r.Step(stack.Op{Kind: "est", Peer: sp.Node, Node: sp.Node, Sess: -1, CP: sp.CP, Rules: rules})
+		o := r.Step(stack.Op{Kind: "est", Peer: sp.Node, Node: sp.Node, Sess: -1, CP: sp.CP, Rules: stack.Permute(rules, c.Perm)})
 		if x := dead(o, "establishment"); x != nil {
 			return x, stt
 		}
@@ -680,6 +682,9 @@ func gen(t *rapid.T) Case {
 			ev.Per = rapid.IntRange(0, 1).Draw(t, "per")
 		}
 		c.Evs = append(c.Evs, ev)
+	}
+	if rapid.IntRange(0, 2).Draw(t, "permute") == 0 {
+		c.Perm = rapid.Uint32Range(1, 1<<30).Draw(t, "perm")
 	}
 	return c
 }
